@@ -29,12 +29,28 @@ def timeouts(name):
 
 def items(tier, seed):
     th = tier == 'thorough'
-    yield from spaces.mk(['flat123'], force='mods', fargs=timeouts('top'),
-                         job_open=JOB,
-                         top_open={'window': [1, 2], 'sdt': [0, 2, None],
-                                   'k': ['nest'], 'critical': [True]},
-                         nest_open={}, extra=_base.X_THASH,
-                         k=3 if th else 2, bound=3 if th else 2)
+    if th:
+        yield from spaces.mk(['flat123'], force='mods', fargs=timeouts('top'),
+                             job_open=JOB,
+                             top_open={'window': [1, 2], 'sdt': [0, 2, None],
+                                       'k': ['nest'], 'critical': [True]},
+                             nest_open={}, extra=_base.X_THASH, k=3, bound=3)
+    else:
+        # job ends before / on / after the expiry through a forced duration
+        # assignment, one further deviation
+        yield from spaces.mk(
+            ['flat123'], force='product',
+            fargs={'parts': [('mods', timeouts('top')),
+                             ('durs', {'values': [1, 3]})]},
+            job_open=JOB,
+            top_open={'window': [1, 2], 'sdt': [0, 2, None], 'k': ['nest'],
+                      'critical': [True]},
+            nest_open={}, extra=_base.X_THASH, k=1, bound=2)
+        yield from spaces.mk(['flat2'], force='mods', fargs=timeouts('top'),
+                             job_open=JOB,
+                             top_open={'window': [1], 'sdt': [0, 2, None],
+                                       'k': ['nest'], 'critical': [True]},
+                             nest_open={}, k=2, bound=2)
     yield from spaces.mk(['flat4'], th, force='mods', fargs=timeouts('top'),
                          job_open={'dur': [2, 3]},
                          top_open={'window': [1, 2]}, nest_open={},
@@ -186,8 +202,9 @@ STAG = [[('a', 'dur', 1), ('b', 'dur', 2), ('c', 'dur', 1), ('x', 'dur', 1),
 def items(tier, seed):
     yield from _items_single(tier, seed)
     th = tier == 'thorough'
-    for where, shapes_ in (('top', ['flat23']), ('n', ['nest22', 'nest32']),
-                           ('top', ['nest22'])):
+    for where, shapes_ in ((('top', ['flat23']), ('n', ['nest22', 'nest32']),
+                            ('top', ['nest22'])) if th else
+                           (('top', ['flat23']), ('n', ['nest22']))):
         yield from spaces.mk(
             shapes_, force='product',
             fargs={'parts': [('mods', {'alts': [[(where, 'timeout', t)]
@@ -196,4 +213,4 @@ def items(tier, seed):
             job_open={'dur': [0], 'out': ['raise'], 'forever': [True],
                       'critical': [True]},
             top_open={'window': [1, 2]}, nest_open={'window': [1]},
-            k=2 if th else 1, kind='twin')
+            k=2 if th else (1 if where == 'top' else 0), kind='twin')
